@@ -94,7 +94,7 @@ def streams(tier, seed):
             if names:
                 c["derived_none"] = rng.sample(names, min(len(names), rng.randint(1, 2)))
     for c in cases:
-        if rng.random() < 0.06 and not c.get("derived_leaf") and not c.get("expect_refusal"):
+        if rng.random() < 0.06 and not c.get("derived_leaf") and not c.get("expect_refusal") and not c.get("expect_ok"):
             withres = [(path, nd) for nd, path in H._nodes(c["routine"]) if nd["resources"]]
             if withres:
                 path, nd = rng.choice(withres)
